@@ -1,5 +1,5 @@
 --------------------------- MODULE MC_StateBuffer ---------------------------
-EXTENDS StateBuffer, TLCExt
+EXTENDS StateBuffer, TLCExt, Json
 
 \* initial committed account tries: everything empty / a populated one
 E0 == [k \in Keys |-> None]
@@ -15,13 +15,13 @@ Tries1  == {T1}
 mcView == state
 
 \* ---- generation configs (workers=1): states are identified by two 32-bit fingerprints;
-\* ---- "ST#key#obs" once per distinct state (evaluated as an invariant), "TX#key#act#key" per transition.
+\* ---- "ST#key#obs" (obs as JSON) once per distinct state (evaluated as an invariant), "TX#key#act#key" per transition.
 \* ---- Obs is the reference layer: what the harness must observe on the real code in that state.
 Key == ToString(TLCFP(state)) \o "," \o ToString(TLCFP(<<"salt", state>>))
 Obs == [acct |-> refA, store |-> refS,
         hv |-> [c \in Ctrs |-> IF hd[c].live THEN hd[c].view ELSE EmptyStore],
         live |-> {c \in Ctrs : hd[c].live},
         depth |-> Len(snaps), ncommit |-> ncommit, init |-> (lastAct.name = "Init")]
-GenState == StateConstraint => PrintT("ST#" \o Key \o "#" \o ToString(Obs))
-GenLog == PrintT("TX#" \o Key \o "#" \o ToString(lastAct') \o "#" \o Key')
+GenState == StateConstraint => PrintT("ST#" \o Key \o "#" \o ToJson(Obs))
+GenLog == PrintT("TX#" \o Key \o "#" \o ToJson(lastAct') \o "#" \o Key')
 =============================================================================
